@@ -86,7 +86,7 @@ func (c *Ctx) directiveConstructors() map[*types.Func]bool {
 
 // RuleB2: a banned kind is refused where directives are created and before files are touched.
 func RuleB2(c *Ctx) {
-	sc := c.Run.Begin("B2", "every creation of a directive (the only call sites of the directive constructors outside their package) is dominated by a bannedDirectives lookup on the created kind whose found branch cannot reach it, and every file-system call is reachable only after a bannedDirectives lookup on the INCLUDE kind", 2)
+	sc := c.Run.Begin("B2", "every creation of a directive (the only call sites of the directive constructors outside their package) is dominated by a bannedDirectives lookup on the created kind whose found branch cannot reach it, and every file-system call is reachable only after a bannedDirectives lookup on the INCLUDE kind", 1)
 	defer sc.End()
 	banned := c.Field("core", "JApiCore", "bannedDirectives")
 	ctors := c.directiveConstructors()
@@ -279,6 +279,13 @@ func (c *Ctx) readOnlyRejects(pk *pkgT, fd *ast.FuncDecl, sel *ast.SelectorExpr)
 				condId, _ = ast.Unparen(u.X).(*ast.Ident)
 				neg = true
 			}
+			// `if v, ok := F[k]; ok && <something about v> { return err }`: found and compared,
+			// a mismatch is an error, nothing else happens
+			if be, isAnd := ast.Unparen(parentIf.Cond).(*ast.BinaryExpr); isAnd && be.Op == token.LAND && okId != nil && parentIf.Else == nil {
+				if lid, isId := ast.Unparen(be.X).(*ast.Ident); isId && info.ObjectOf(lid) == info.ObjectOf(okId) && endsWithErrorReturn(info, parentIf.Body) {
+					return "lookup; found and mismatching -> error return", true
+				}
+			}
 			if okId != nil && condId != nil && info.ObjectOf(okId) == info.ObjectOf(condId) && parentIf.Else == nil {
 				valBlank := false
 				if vid, ok := as.Lhs[0].(*ast.Ident); ok && vid.Name == "_" {
@@ -346,7 +353,7 @@ func onlyConditionalErrorReturns(info *types.Info, b *ast.BlockStmt) bool {
 // closure is created once and applied to many cores, so a captured map, slice or
 // pointer stored into a core field is shared by every parse that uses the option.
 func RuleOP1(c *Ctx) {
-	sc := c.Run.Begin("OP1", "an Option closure stores into the core only constants, scalars and values it allocates itself per application - never a map, slice or pointer captured from the option constructor (which would be shared by every parse using that option value)", 2)
+	sc := c.Run.Begin("OP1", "an Option closure stores into the core only constants, scalars and values it allocates itself per application - never a map, slice or pointer captured from the option constructor (which would be shared by every parse using that option value)", 1)
 	defer sc.End()
 	pk := c.P.Pkg("core")
 	coreT := c.Named("core", "JApiCore")
